@@ -130,6 +130,10 @@ func runC11(c *Ctx) {
 	checkExcerptIndexPairing(c)
 	checkExcerptDataPath(c, "R11.9")
 	checkLoadAllOrRebuild(c, "R11.10")
+	checkMergeResultsDrained(c, "R11.11")
+	// removal and rebuild leave nothing behind in memory either (shared with C14)
+	checkRemovalSteps(c)
+	checkRebuildAndCLIRemoval(c)
 	checkSingleInstance(c, newLockWorld(w))
 	checkMutatorsNotify(c, "R11.2")
 	checkCreationRegisters(c)
